@@ -662,7 +662,8 @@ func main() {
 		}
 		ops := randomHistory(u, rnd, n)
 		wm := os.Getenv("VERIF_WINDOWS") // "": every other random history is window-mode; "most": three of four; "off"
-		if !async && wm != "off" && ((wm == "most" && i%4 != 0) || (wm != "most" && i%2 == 1)) {
+		// decided by the trace's own seeded generator, not by i, so that it is independent of the universe rotation
+		if w := rnd.Intn(4); !async && wm != "off" && ((wm == "most" && w != 0) || (wm != "most" && w < 2)) {
 			ops = windowHistory(u, rnd)
 		}
 		if async {
